@@ -8,7 +8,7 @@ use std::io::{BufRead, Write};
 
 fn main() {
     let mode = std::env::args().nth(1).unwrap_or_else(|| "unit".into());
-    std::panic::set_hook(Box::new(|_| {})); // panics are caught and reported in the output
+    if std::env::var("BEI_PANIC").is_err() { std::panic::set_hook(Box::new(|_| {})); } // panics are caught and reported in the output
     let stdin = std::io::stdin();
     let stdout = std::io::stdout();
     let mut out = std::io::BufWriter::new(stdout.lock());
